@@ -37,6 +37,8 @@ def judge(chk, stage, items, obs_of, key_of, required, what_of=None):
         if v is None:
             continue
         failing = [k for k in required(it) if not v[k]]
+        if any(n.startswith('mode:') for n in obs[i]['state'].get('notes', [])):
+            failing.append('PrivateDirs')
         if failing:
             chk.violation('%s:%s:%s' % (stage, key_of(it), '+'.join(failing)),
                           'invariant(s) %s of PutOps.tla are false in an observed state: %s' % (
